@@ -276,6 +276,22 @@ def gen_cases(ctx, scale=1.0):
                 c = gen_case(rng, force={"backend": backend, "bs": bs})
                 c["bystander"] = True
                 cases.append(c)
+            # written out: an upload resumed inside the old content, in several writes, and a download of several blocks
+            for verb in ("STOR", "APPE"):
+                c = det_case(rng, bs, 3 * bs, verb)
+                c["backend"] = backend
+                c["initial"] = gen_content(rng, 6 * bs + 1).hex()
+                c["ops"][0].update({"offset": bs, "writes": [bs, bs, bs]})
+                c["ops"][1].update({"read": bs})
+                c["bystander"] = True
+                cases.append(c)
+        # a download that is still being produced when the other session looks (beyond the transport's buffer)
+        c = det_case(rng, 8192, 0)
+        c["backend"] = backend
+        c["initial"] = gen_content(rng, 150001).hex()
+        c["ops"] = [{"op": "down", "offset": 0, "read": 8192, "api": "iter"}]
+        c["bystander"] = True
+        cases.append(c)
     return cases
 
 
